@@ -413,4 +413,49 @@ def monitor_algebra(rng):
         fails.append("wait_combine != sum at attempts=%d" % a)
     if len(ws) >= 2 and Fraction((ws[0] + ws[1])(a, seed=1)) != Fraction(ws[0](a, seed=1)) + Fraction(ws[1](a, seed=1)):
         fails.append("+ operator != sum at attempts=%d" % a)
+    # the same law with jittered parts and an explicit seed: every part is evaluated with THAT seed (float sums: tolerance)
+    wj = [gen_wait(rng, depth=1, jitter=True)[0] for _ in range(rng.choice([2, 2, 3]))]
+    sd = rng.choice([0, 1, 7, 12345])
+    a2 = rng.choice([0, 1, 2, 3, 5])
+    try:
+        parts = [float(w(a2, seed=sd)) for w in wj]
+        got = float(rp.wait_combine(*wj)(a2, seed=sd))
+        if abs(got - sum(parts)) > 1e-9 * (1.0 + abs(sum(parts))):
+            fails.append("wait_combine(seed=%d) = %r != sum of its parts evaluated with the same seed %r at attempts=%d" % (sd, got, parts, a2))
+        got2 = float((wj[0] + wj[1])(a2, seed=sd))
+        if abs(got2 - (parts[0] + parts[1])) > 1e-9 * (1.0 + abs(parts[0] + parts[1])):
+            fails.append("+ operator (seed=%d) = %r != %r + %r at attempts=%d" % (sd, got2, parts[0], parts[1], a2))
+    except OverflowError:
+        pass
     return fails
+
+
+def cross_process_determinism():
+    """jittered strategies are deterministic for a given seed - also across processes (no dependence on the per-process
+    string-hash salt): the same seeded delays computed in two interpreters started with different PYTHONHASHSEED values.
+    Returns a failure description or None."""
+    import json
+    import os
+    import subprocess
+    import sys
+    code = (
+        "import sys, json\n"
+        "sys.path[:0] = %r\n"
+        "from workflows import retry_policy as rp\n"
+        "ws = [rp.wait_random(0.5, 2.0), rp.wait_fixed(1.0) + rp.wait_random(0.0, 1.0), "
+        "rp.wait_combine(rp.wait_fixed(0.25), rp.wait_random(1.0, 3.0), rp.wait_exponential_jitter(initial=0.5, max=8.0)), "
+        "rp.wait_exponential_jitter(initial=1.0, max=30.0), rp.wait_chain(rp.wait_random(0, 1), rp.wait_fixed(2.0) + rp.wait_random(0, 1))]\n"
+        "print(json.dumps([[w(a, seed=s) for a in (0, 1, 2, 5)] for w in ws for s in (0, 1, 42)]))\n"
+    ) % ([p for p in sys.path if p],)
+    outs = []
+    for hs in ("1", "2"):
+        env = dict(os.environ, PYTHONHASHSEED=hs)
+        r = subprocess.run([sys.executable, "-c", code], env=env, capture_output=True, text=True, timeout=120)
+        if r.returncode != 0:
+            return "could not evaluate the strategies in a child interpreter: %s" % r.stderr[-300:]
+        outs.append(json.loads(r.stdout.strip().splitlines()[-1]))
+    if outs[0] != outs[1]:
+        k = next(i for i, (x, y) in enumerate(zip(outs[0], outs[1])) if x != y)
+        return ("the same seeded delays differ between two interpreter processes (PYTHONHASHSEED 1 vs 2): row %d is %r in one "
+                "and %r in the other" % (k, outs[0][k], outs[1][k]))
+    return None
